@@ -6,7 +6,12 @@ the same loads with an explicit identity token (`Session.get(P, pk, identity_tok
 T in {"east", "west"}; an identity key is (class, primary key, identity_token), so one row loaded under two tokens is two identities that
 live side by side in one Session — the mechanism horizontal sharding is built on), `Session.add` of a detached object (-> `_WeakInstanceDict.add`), `expunge`, `merge`, `refresh`, `expire`, `delete`, a
 primary-key change + flush (-> `_WeakInstanceDict.replace / safe_discard`), `commit`, `rollback`, dropping references +
-`gc.collect()`; shared harness class P on SQLite :memory: with two rows.
+`gc.collect()`; nested transactions: `Session.begin_nested()` (SAVEPOINT), release of the innermost one
+(`Session.get_nested_transaction().commit()` -> `SessionTransaction._remove_snapshot`, which hands the bookkeeping of the block —
+new / deleted objects, primary-key switches — up to the enclosing transaction) and rollback to it (`.rollback()` ->
+`_restore_snapshot`), in every position of a history, so that each mutation is explored outside a SAVEPOINT, inside one that is
+released, and inside one that is rolled back, each followed by commit or rollback of the enclosing transaction;
+shared harness class P on SQLite :memory: with two rows, engine set up with the documented pysqlite SAVEPOINT recipe.
 
 Contract clauses, evaluated after EVERY operation of every history (C/D/E as `ensures` of the operation just run):
   A  rep invariant: for every (key, obj) in session.identity_map: inspect(obj).key == key and inspect(obj).session is the session
@@ -21,6 +26,14 @@ Contract clauses, evaluated after EVERY operation of every history (C/D/E as `en
      (P, (pk,), T), never the key of another token; every object returned by a select executed with identity_token=T carries token T
   E  `Session.add(detached o)`: raises InvalidRequestError  <=>  identity_map holds a DIFFERENT live object under o's key; when it
      raises the map is unchanged; otherwise identity_map[key] is o afterwards
+  R  rollback frame ("that object for the row", across primary-key changes).  ROLLBACK of the outermost transaction (`Session.rollback()`, also
+     the one issued after an operation raised) returns the database to its state at the start of the transaction, ROLLBACK TO SAVEPOINT
+     (`rollback_nested`) to its state at the `begin_nested()`.  Hence every object that was persistent in the session at that point and is
+     persistent in it after the rollback stands for the same row as then and carries the SAME identity key as then; with any other key it is no
+     longer found for its row, and the next load of the row makes a second object for it.  Ghost: {object: identity key} of the tracked
+     persistent objects, noted (weakly) at the start of the history and after every commit / rollback, plus one such note per open SAVEPOINT
+     taken right after `begin_nested()` (a stack that is popped by release / rollback of the innermost SAVEPOINT and emptied by commit /
+     rollback).  Objects first seen later in the transaction are not judged by R.
   X  an operation raises only sqlalchemy.exc.SQLAlchemyError subclasses (the session is then rolled back and the history continues)
 """
 import gc
@@ -32,13 +45,20 @@ from rtc import ormharness as H
 
 FN = "orm/identity.py::_WeakInstanceDict+Session"
 BASE_OPS = ["query", "query_yield", "populate", "get1", "get2", "expunge1", "readd1", "modify1", "pk1to3", "flush", "commit", "rollback",
-            "merge1", "merge_detached1", "refresh1", "expire1", "delete1", "dropref_gc", "new4"]
+            "merge1", "merge_detached1", "refresh1", "expire1", "delete1", "dropref_gc", "new4",
+            "begin_nested", "release_nested", "rollback_nested"]
+SAVEPOINT_CLOSERS = ("release_nested", "rollback_nested")
 TOKENS = ["east", "west"]
 # identity-token variants of the loads: <op>_<token>.  Appended, so that range(len(BASE_OPS)) is the token-less catalogue.
 TOKEN_OPS = [f"{op}_{t}" for op in ("get1", "get2", "query") for t in TOKENS]
 OPS = BASE_OPS + TOKEN_OPS
-QUICK_L4_FIRST = ["delete1", "pk1to3", "expunge1", "modify1"]
+QUICK_L4_FIRST = ["delete1", "pk1to3", "expunge1", "modify1", "begin_nested"]
 _G = dict(engine=None)
+
+
+def make_engine():
+    """SQLite :memory: set up with the documented pysqlite SAVEPOINT recipe"""
+    return H.new_engine(savepoint=True)
 
 
 def reset_db(engine):
@@ -71,8 +91,12 @@ class Hist:
         self.s = Session(engine)
         self.held = {}                    # role -> object the application holds
         self.seen = weakref.WeakSet()     # every object the harness was ever handed
+        self.base = weakref.WeakKeyDictionary()   # ghost (clause R): object -> identity key at the start of the transaction
+        self.savepoints = []                      # ghost (clause R): one such note per open SAVEPOINT
+        self.rolled_back = False
+        self.closed_savepoint = None
         self.fails = []
-        self.stats = dict(get_nosql=0, get_nosql_token=0, loads=0, add_conflict=0, raised=0)
+        self.stats = dict(get_nosql=0, get_nosql_token=0, loads=0, add_conflict=0, raised=0, savepoint_released=0, savepoint_rolled_back=0, frame_checks=0)
 
     # ---- clauses
     def handed(self, objs, what, token=False):
@@ -116,6 +140,47 @@ class Hist:
             for o in objs:
                 if s.identity_map.get(k) is not o:
                     self.fails.append(f"B: a persistent attached object with key {_kd(k)} is not identity_map[key]")
+
+    # ---- clause R (rollback frame)
+    def note(self):
+        """ghost: identity keys of the tracked objects that are persistent in the session now (held weakly)"""
+        from sqlalchemy import inspect
+        out = weakref.WeakKeyDictionary()
+        for o in list(self.seen):
+            st = inspect(o)
+            if st.key is not None and st.session is self.s and st.persistent:
+                out[o] = st.key
+        return out
+
+    def same_keys_as(self, noted, what):
+        from sqlalchemy import inspect
+        for o, k in list(noted.items()):
+            st = inspect(o)
+            if st.key is not None and st.session is self.s and st.persistent:
+                self.stats["frame_checks"] += 1
+                if st.key != k:
+                    self.fails.append(f"R: after {what} an object that was persistent under identity key {_kd(k)} when the rolled-back work began is persistent under {_kd(st.key)}")
+
+    def rollback(self):
+        """Session.rollback() of the outermost transaction, wherever the harness issues it"""
+        self.s.rollback()
+        self.rolled_back = True
+
+    def frame(self, name):
+        """after operation `name`: evaluate R / move the ghost notes"""
+        if self.rolled_back:
+            self.rolled_back = False
+            self.same_keys_as(self.base, "ROLLBACK")
+            self.base, self.savepoints = self.note(), []
+        elif name == "commit":
+            self.base, self.savepoints = self.note(), []
+        elif name == "begin_nested":
+            self.savepoints.append(self.note())
+        elif self.closed_savepoint == "release" and self.savepoints:
+            self.savepoints.pop()
+        elif self.closed_savepoint == "rollback" and self.savepoints:
+            self.same_keys_as(self.savepoints.pop(), "ROLLBACK TO SAVEPOINT")
+        self.closed_savepoint = None
 
     # ---- operations (each in its own frame)
     def op(self, name):
@@ -186,7 +251,7 @@ class Hist:
                     self.stats["add_conflict"] += 1
                     if dict(s.identity_map.items()) != snapshot:
                         self.fails.append("E: add(detached) raised but changed the identity map")
-                    s.rollback()
+                    self.rollback()
                 elif s.identity_map.get(k) is not o1:
                     self.fails.append("E: after add(detached) identity_map[key] is not the added object")
             elif o1 is not None:
@@ -202,7 +267,7 @@ class Hist:
         elif name == "commit":
             s.commit()
         elif name == "rollback":
-            s.rollback()
+            self.rollback()
         elif name == "merge1":
             r = s.merge(P(id=1, x=99))
             self.handed([r], name)
@@ -229,6 +294,20 @@ class Hist:
             n = P(id=4, x=40)
             self.seen.add(n)
             s.add(n)
+        elif name == "begin_nested":
+            s.begin_nested()
+        elif name == "release_nested":
+            t = s.get_nested_transaction()
+            if t is not None:
+                t.commit()                  # flushes, RELEASE SAVEPOINT, hands the block's bookkeeping to the enclosing transaction
+                self.stats["savepoint_released"] += 1
+                self.closed_savepoint = "release"
+        elif name == "rollback_nested":
+            t = s.get_nested_transaction()
+            if t is not None:
+                t.rollback()                # ROLLBACK TO SAVEPOINT, restores the snapshot taken at begin_nested()
+                self.stats["savepoint_rolled_back"] += 1
+                self.closed_savepoint = "rollback"
 
     def step(self, name):
         from sqlalchemy.exc import SQLAlchemyError
@@ -236,14 +315,15 @@ class Hist:
             self.op(name)
         except SQLAlchemyError:
             self.stats["raised"] += 1
-            self.s.rollback()
+            self.rollback()
         except Exception as ex:
             self.fails.append(f"X: {name} raised {type(ex).__name__}: {str(ex)[:150]}")
             try:
-                self.s.rollback()
+                self.rollback()
             except Exception:
                 pass
         self.invariants()
+        self.frame(_split(name)[0])
 
 
 def run_history(names, engine=None):
@@ -254,6 +334,7 @@ def run_history(names, engine=None):
     try:
         h.held[1] = h.s.get(h.m.P, 1)
         h.seen.add(h.held[1])
+        h.base = h.note()                   # clause R: the keys at the start of the (first) transaction
         for i, name in enumerate(names):
             h.step(name)
             if h.fails:
@@ -285,7 +366,7 @@ def _guarded_history(names):
         return run_history(names), None
     except (_Timeout, MemoryError) as ex:
         where = " <- ".join(f"{f.name}:{f.lineno}" for f in reversed(traceback.extract_tb(ex.__traceback__)[-6:]))
-        _G["engine"] = H.new_engine()
+        _G["engine"] = make_engine()
         return None, f"history {names} did not finish within {HISTORY_TIMEOUT_S} s ({type(ex).__name__} at {where})"
     finally:
         signal.alarm(0)
@@ -295,14 +376,18 @@ def _guarded_history(names):
 def _worker(job):
     H.quiet()
     if _G["engine"] is None:
-        _G["engine"] = H.new_engine()
+        _G["engine"] = make_engine()
         run_history(["query", "flush"])
         gc.collect()
         gc.freeze()
     res = dict(evaluations=0, nontrivial=0, failures=[], samples=[], skipped_prefix_already_broken=0, get_without_sql=0, get_with_token_without_sql=0, add_conflicts=0,
-               operations_raising_documented_errors=0, histories_with_identity_tokens=0, timeouts=[])
+               operations_raising_documented_errors=0, histories_with_identity_tokens=0, timeouts=[], skipped_equal_to_a_shorter_history=0,
+               histories_releasing_a_savepoint=0, histories_rolling_back_to_a_savepoint=0, frame_checks=0, savepoint_shapes=set())
     for idxs in H.job_sequences(job.get("catalogue", len(OPS)), job):
         names = [OPS[k] for k in idxs]
+        if redundant(names):
+            res["skipped_equal_to_a_shorter_history"] += 1
+            continue
         r, timeout = _guarded_history(names)
         if timeout:
             res["timeouts"].append(timeout)
@@ -313,6 +398,13 @@ def _worker(job):
         res["get_with_token_without_sql"] += st["get_nosql_token"]
         res["histories_with_identity_tokens"] += any(n in TOKEN_OPS for n in names)
         res["add_conflicts"] += st["add_conflict"]
+        res["histories_releasing_a_savepoint"] += bool(st["savepoint_released"])
+        res["histories_rolling_back_to_a_savepoint"] += bool(st["savepoint_rolled_back"])
+        res["frame_checks"] += st["frame_checks"]
+        if st["savepoint_released"] or st["savepoint_rolled_back"]:
+            # what happened inside / after the SAVEPOINT block, as an abstract shape: the mutations between begin_nested and its closing
+            # operation, how the block was closed, and how the enclosing transaction ended afterwards
+            res["savepoint_shapes"].add(savepoint_shape(names))
         res["operations_raising_documented_errors"] += st["raised"]
         if st["get_nosql"] or st["add_conflict"] or st["loads"]:
             res["nontrivial"] += 1
@@ -324,6 +416,36 @@ def _worker(job):
             else:
                 res["skipped_prefix_already_broken"] += 1
     return res
+
+
+def redundant(names):
+    """symmetry reduction: release_nested / rollback_nested with no begin_nested anywhere before it in the sequence cannot find an open SAVEPOINT and
+    does nothing; the history equals the shorter history without that operation, which is in the scope — not run again"""
+    opened = False
+    for n in names:
+        if n == "begin_nested":
+            opened = True
+        elif n in SAVEPOINT_CLOSERS and not opened:
+            return True
+    return False
+
+
+MUTATIONS = ("modify1", "pk1to3", "delete1", "expunge1", "readd1", "new4", "merge1", "merge_detached1", "flush", "expire1", "refresh1", "dropref_gc")
+
+
+def savepoint_shape(names):
+    """(mutations inside the first SAVEPOINT block, how it was closed, the first transaction-ending operation after that)"""
+    i = names.index("begin_nested")
+    inside, closed, ended = [], None, None
+    for n in names[i + 1:]:
+        if closed is None:
+            if n in SAVEPOINT_CLOSERS or n in ("commit", "rollback"):
+                closed = n
+            elif n in MUTATIONS:
+                inside.append(n)
+        elif n in ("commit", "rollback") and ended is None:
+            ended = n
+    return (tuple(inside), closed, ended)
 
 
 def lengths_for(tier):
@@ -358,13 +480,15 @@ def bounded(run, tier, seed):
             continue
         if n < 6:
             n += 1
-            run.violation("idmap-" + "-".join(d["ops"]), dict(function=FN, input=d, expected="clauses A-E, X hold after every operation", actual=d["broken"],
+            run.violation("idmap-" + "-".join(d["ops"]), dict(function=FN, input=d, expected="clauses A-E, R, T, X hold after every operation", actual=d["broken"],
                                                               reason="bounded run-time contract check (C34_bounded)"))
     samples = sorted(agg.get("samples", []), key=lambda x: (-x["add_conflicts"], -len(x["ops"]), x["ops"]))
     samples = samples[:3] + [x for x in samples[3:] if any(n in TOKEN_OPS for n in x["ops"])][:2]
     blk = dict(
         scope=f"one Session on SQLite :memory:, two rows (+ up to two added), the application starts holding row 1; ALL histories of length in {list(lengths)}{extra} over the "
-              f"{len(OPS)} operations {OPS} (<load>_<token> = the load made with identity_token=<token>); clauses A, B after every operation, C / D / E / T on every load / get / add",
+              f"{len(OPS)} operations {OPS} (<load>_<token> = the load made with identity_token=<token>; begin_nested = SAVEPOINT, release_nested / rollback_nested = "
+              f"commit / rollback of the innermost nested transaction; a history in which one of these two comes before any begin_nested equals a shorter history of the scope and is "
+              f"not run again); clauses A, B after every operation, C / D / E / T on every load / get / add, R on every rollback / rollback to a SAVEPOINT",
         evaluations=agg["evaluations"], distinct_nontrivial=agg["nontrivial"],
         rule="every history of the scope is enumerated once; non-trivial = the history performed at least one load through the identity map, a get() answered "
              "without SQL, or an add() that hit the conflict branch (counted per history from the harness's own counters)",
@@ -372,6 +496,10 @@ def bounded(run, tier, seed):
         get_answered_without_sql=agg["get_without_sql"], get_with_identity_token_answered_without_sql=agg["get_with_token_without_sql"],
         histories_with_identity_token_operations=agg["histories_with_identity_tokens"], add_conflicts_raised=agg["add_conflicts"],
         operations_raising_documented_errors=agg["operations_raising_documented_errors"],
+        histories_releasing_a_savepoint=agg["histories_releasing_a_savepoint"], histories_rolling_back_to_a_savepoint=agg["histories_rolling_back_to_a_savepoint"],
+        distinct_savepoint_block_shapes=len(agg.get("savepoint_shapes", set())),
+        savepoint_block_shapes_rule="(mutations inside the first SAVEPOINT block, how the block was closed, how the enclosing transaction ended afterwards), distinct, counted",
+        rollback_frame_key_comparisons=agg["frame_checks"], skipped_equal_to_a_shorter_history=agg["skipped_equal_to_a_shorter_history"],
         skipped_prefix_already_broken=agg["skipped_prefix_already_broken"], wall_s=round(time.time() - t0, 1))
     run.coverage.setdefault("bounded", []).append(blk)
     return blk
@@ -380,7 +508,7 @@ def bounded(run, tier, seed):
 def replay(data):
     H.quiet()
     d = data["input"]
-    r = run_history(d["ops"], H.new_engine())
+    r = run_history(d["ops"], make_engine())
     if r["fails"]:
         print(f"REPLAY-FAILS {FN} ops={d['ops']} broken={sorted(set(r['fails']))}")
         return 1
